@@ -14,8 +14,11 @@ structure St where
   pend : Log := []          -- a log being loaded with `log.*` ops (newest first)
   ltid : Nat := 0           -- `_ltid`: survives a pack that drops the newest transaction from the file
 
+/-- tag 1 = `c06_classes.RC`, tag 2 = `c06_pkg.sub.RC2` (same arithmetic, class in a package
+    submodule with a required `__init__` argument) -/
 def rcVal : Bytes → Option Nat
   | [1, hi, lo] => some (hi * 256 + lo)
+  | [2, hi, lo] => some (hi * 256 + lo)
   | _ => none
 
 /-- `c06_classes.RC._p_resolveConflict(old, committed, new)` on tokens -/
@@ -25,7 +28,7 @@ def rcResolve : Resolver := fun _ old committed new =>
     if (o + 2 * c + 3 * n) % 7 = 3 then none
     else
       let v := (2 * c + 3 * n + 4 * 65521 - 4 * o) % 65521
-      some [1, v / 256, v % 256]
+      some [new.headD 1, v / 256, v % 256]          -- the class is the one of `new` (tryToResolveConflict)
   | _, _, _ => none
 
 def hx (n : Nat) : String := hexN 8 n
@@ -82,6 +85,10 @@ def step (s : St) (toks : List String) : St × String :=
   | ["store", o, d] =>
     match natOfHex o, bytesOfHex d with
     | some o, some d => ({ s with fs := s.fs.store o d }, "ok")
+    | _, _ => (s, "bad-op")
+  | ["rec", o, "b", n] =>                      -- deleteObject / restore: a back-pointer record (0 = gone)
+    match natOfHex o, n.toNat? with
+    | some o, some n => ({ s with fs := s.fs.storePayload o (.back n) }, "ok")
     | _, _ => (s, "bad-op")
   | ["undo", t] =>
     match natOfHex t with
